@@ -1,4 +1,165 @@
-import HdVerif.Model.Stack
-/-! # C11  Slice stacks are recognised, ordered and assembled correctly (theorems follow) -/
+import HdVerif.Proofs.Stack
+/-! # C11  Slice stacks are recognised, ordered and assembled correctly
+
+Property theorems only (helper lemmas in `Proofs/Stack.lean`).  Statements are about the model
+`Model/Stack.lean` of `get_volume_positions` & co. (`spatial.py`), bound to the code by the correspondence
+(tie C); the normal vector uses the decision tables translated from the source (`Gen.normalAxisTable`,
+`Gen.normalCrossOrder`, tie T).
+
+Notation.  A *stack along a line* has plane number `j` at the row `f j` with distance `g j = n · f j` along the
+normal `n`, `g` strictly increasing.  The input is the list of rows `f j` for the plane numbers `js` in ANY
+order; `js` covering exactly `0 … M` means "no gaps"; repeated numbers are duplicated positions.
+`planePos o n s j = o + j·s·n` is the regular stack; volume indices are "plane number − lowest plane
+number" = `j` (the origin `o` is the lowest plane). -/
 namespace HdVerif.C11
+open HdVerif HdVerif.Affine HdVerif.Stack
+
+/-- a complete call of `get_volume_positions` on rows `f j`, normal of the given orientation / convention /
+handedness: reduces to the parsed-rows function (at least two rows). -/
+theorem getVolumePositions_rows (f : Nat → V3) (js : List Nat) (hlen : 2 ≤ js.length) (ori : List Rat) (oo : Ori)
+    (hori : Ori.ofList ori = some oo) {cv : Char × Char} (hcv : cv ∈ validConventions) (op : Opts)
+    (hconv : op.conv = [cv.1, cv.2]) {hint : Option Rat} {rtol atol : Rat} (hopts : normaliseOpts op = .ok (hint, rtol, atol)) :
+    getVolumePositions ((js.map f).map rowOf) ori op
+      = volumePositionsOf (normalSpec oo cv op.rightHanded) (js.map f) op hint rtol atol := by
+  have hne : ((js.map f).map rowOf).isEmpty = false := by
+    cases js with
+    | nil => simp at hlen
+    | cons j js => rfl
+  have hl1 : ¬ (js.map f).length = 1 := by simp; omega
+  unfold getVolumePositions
+  simp only [hopts, hne, rowsToV3_rowOf, hl1, hori, hconv, normConvention_valid hcv, normalVector_eval oo hcv,
+    bind, Except.bind, pure, Except.pure, Bool.false_eq_true, if_false]
+
+/-- the default options: relative tolerance 1 %, no hint -/
+theorem default_options : normaliseOpts {} = .ok (none, 1 / 100, 0) := by decide +kernel
+
+/-- an absolute tolerance alone -/
+theorem atol_options (a : Rat) : normaliseOpts { atol := some a } = .ok (none, 0, a) := by
+  simp [normaliseOpts, bind, Except.bind, pure, Except.pure]
+
+/-- **regular stacks are recognised**: planes `o + j·s·n` (`n` the unit normal of an orthonormal orientation in
+any of the eight index conventions and either handedness, `s > 0`), the input rows in ANY order `js` covering
+exactly `0 … N−1`, `N ≥ 2`, duplicated positions allowed when declared, any non-negative tolerances:
+the answer is the spacing `s` and for every input row its plane number (= `k_i − min k`). -/
+theorem regular_stack_recognised (ori : List Rat) (oo : Ori) (hori : Ori.ofList ori = some oo)
+    (ho : OrthoPair oo.row oo.col) {cv : Char × Char} (hcv : cv ∈ validConventions) (op : Opts)
+    (hconv : op.conv = [cv.1, cv.2]) (hsort : op.sort = true) (hmiss : op.allowMissing = false)
+    {rtol atol : Rat} (hopts : normaliseOpts op = .ok (none, rtol, atol)) (hr : 0 ≤ rtol) (ha : 0 ≤ atol)
+    (o : V3) {s : Rat} (hs : 0 < s) (js : List Nat) {N : Nat} (hN : 2 ≤ N) (hmem : ∀ j, j ∈ js ↔ j < N)
+    (hdup : op.allowDuplicate = true ∨ js.Nodup) :
+    getVolumePositions ((js.map (planePos o (normalSpec oo cv op.rightHanded) s)).map rowOf) ori op
+      = .ok (some (s, js.map Int.ofNat)) := by
+  have hn := normalSpec_unit oo ho hcv op.rightHanded
+  have hlen : 2 ≤ js.length := by
+    have h0 : 0 ∈ js := (hmem 0).mpr (by omega)
+    have h1 : 1 ∈ js := (hmem 1).mpr (by omega)
+    match js, h0, h1 with
+    | [], h0, _ => cases h0
+    | [a], h0, h1 => simp at h0 h1; omega
+    | _ :: _ :: _, _, _ => simp
+  rw [getVolumePositions_rows _ js hlen ori oo hori hcv op hconv hopts]
+  exact volumePositionsOf_regular o _ hn hs js hN hmem op hsort hmiss hdup hr ha
+
+/-- **the indices order the planes along the positive normal**: in the answer for a regular stack, a row has a
+smaller index exactly when it lies at a smaller distance along the normal of the requested convention. -/
+theorem order_positive_normal (o nrm : V3) (hn : nrm.dot nrm = 1) {s : Rat} (hs : 0 < s) (i j : Nat) :
+    (Int.ofNat i < Int.ofNat j) ↔ nrm.dot (planePos o nrm s i) < nrm.dot (planePos o nrm s j) := by
+  rw [dot_planePos o nrm s hn, dot_planePos o nrm s hn, gdist_lt_iff hs]
+  exact Int.ofNat_lt
+
+/-- the positive normal IS the slice axis of the rotation matrix of the same convention and handedness
+(C10 `columns_orthogonal_lengths_handedness`): the frame (axis 0, axis 1, normal) has the requested handedness. -/
+theorem positive_normal_is_slice_axis (oo : Ori) {cv : Char × Char} (hcv : cv ∈ validConventions) (rh : Bool) :
+    normalVector oo cv rh = .ok (normalSpec oo cv rh) ∧
+    ∃ m, createRotation oo [cv.1, cv.2] false rh (.seq [1, 1]) 1 = .ok m ∧ m.c2 = normalSpec oo cv rh := by
+  refine ⟨normalVector_eval oo hcv rh, _, createRotation_eval oo hcv false rh 1 1 1 one_pos one_pos, ?_⟩
+  cases rh <;> simp [frame, normalSpec]
+
+/-! ## refusals -/
+
+/-- **irregular stacks are rejected**: planes on a line along the normal at strictly increasing distances `g j`
+(rows `o + g j · n`), input in any order without gaps in the numbering: if some consecutive spacing is not within
+tolerance of the mean spacing `(g M − g 0)/M`, the answer is `(None, None)`. -/
+theorem irregular_rejected (nrm : V3) (hn : nrm.dot nrm = 1) (o : V3) (g : Nat → Rat) (hg : StrictMono g)
+    (js : List Nat) {M : Nat} (hM : 1 ≤ M) (hmem : ∀ j, j ∈ js ↔ j < M + 1) (op : Opts)
+    (hsort : op.sort = true) (hmiss : op.allowMissing = false) (hdup : op.allowDuplicate = true ∨ js.Nodup)
+    (rtol atol : Rat) (k : Nat) (hk : k < M)
+    (hbad : isClose (g (k + 1) - g k) ((g M - g 0) / (M : Rat)) rtol atol = false) :
+    volumePositionsOf nrm (js.map fun j => o.add (V3.smul (g j) nrm)) op none rtol atol = .ok none := by
+  have hfg : ∀ j, nrm.dot (o.add (V3.smul (g j) nrm)) = nrm.dot o + g j := by
+    intro j
+    obtain ⟨a, b, c⟩ := o
+    obtain ⟨x, y, z⟩ := nrm
+    simp only [V3.dot] at hn
+    simp only [V3.add, V3.smul, V3.dot]
+    linear_combination (g j) * hn
+  have hg' : StrictMono fun j => nrm.dot o + g j := fun a b h => by simpa using hg h
+  rw [volumePositionsOf_line nrm _ _ hfg hg' js hM hmem op hsort hmiss hdup rtol atol]
+  have hall : ((diffs ((List.range (M + 1)).map fun j => nrm.dot o + g j)).all fun x =>
+      isClose x ((nrm.dot o + g M - (nrm.dot o + g 0)) / (M : Rat)) rtol atol) = false := by
+    rw [Bool.eq_false_iff, ne_eq, List.all_eq_true]
+    intro hall
+    have hmemd : (g (k + 1) - g k) ∈ diffs ((List.range (M + 1)).map fun j => nrm.dot o + g j) := by
+      have := diffs_mem (fun j => nrm.dot o + g j) (M + 1) k (by omega)
+      simpa using this
+    have := hall _ hmemd
+    have e : (nrm.dot o + g M - (nrm.dot o + g 0)) = g M - g 0 := by ring
+    rw [e, hbad] at this
+    cases this
+  simp only [hall, Bool.false_and, Bool.false_eq_true, if_false]
+
+/-- **sheared stacks are rejected**: planes regularly spaced along the normal (`s > 0`) but displaced in-plane by
+`j·t·w` (`w` a unit vector in the plane): when the stacking direction deviates by more than the tolerance
+(`(1 − 10⁻³)² (s² + t²) ≥ s²`, i.e. roughly `|t| ≥ 0.0448 s`), the answer is `(None, None)` — for every input
+order, although the spacing along the normal is perfectly regular. -/
+theorem sheared_rejected (nrm w : V3) (hn : nrm.dot nrm = 1) (hw : w.dot w = 1) (hnw : nrm.dot w = 0) (o : V3)
+    {s t : Rat} (hs : 0 < s) (hshear : s * s ≤ (1 - perpTol) * (1 - perpTol) * (s * s + t * t))
+    (js : List Nat) {M : Nat} (hM : 1 ≤ M) (hmem : ∀ j, j ∈ js ↔ j < M + 1) (op : Opts)
+    (hsort : op.sort = true) (hmiss : op.allowMissing = false) (hdup : op.allowDuplicate = true ∨ js.Nodup)
+    (rtol atol : Rat) :
+    volumePositionsOf nrm (js.map fun j => (planePos o nrm s j).add (V3.smul ((j : Rat) * t) w)) op none rtol atol
+      = .ok none := by
+  have hfg : ∀ j : Nat, nrm.dot ((planePos o nrm s j).add (V3.smul ((j : Rat) * t) w)) = gdist (nrm.dot o) s j := by
+    intro j
+    rw [← dot_planePos o nrm s hn j]
+    generalize planePos o nrm s j = p
+    obtain ⟨a, b, c⟩ := p
+    obtain ⟨x, y, z⟩ := nrm
+    obtain ⟨u, v, r⟩ := w
+    simp only [V3.dot] at hnw
+    simp only [V3.add, V3.smul, V3.dot]
+    linear_combination ((j : Rat) * t) * hnw
+  have hg : StrictMono (gdist (nrm.dot o) s) := fun a b h => gdist_lt hs h
+  rw [volumePositionsOf_line nrm _ _ hfg hg js hM hmem op hsort hmiss hdup rtol atol]
+  have hperp : isPerpendicular nrm (((planePos o nrm s M).add (V3.smul ((M : Rat) * t) w)).sub
+      ((planePos o nrm s 0).add (V3.smul (((0 : Nat) : Rat) * t) w))) = false := by
+    have hspan : (((planePos o nrm s M).add (V3.smul ((M : Rat) * t) w)).sub
+        ((planePos o nrm s 0).add (V3.smul (((0 : Nat) : Rat) * t) w)))
+        = (V3.smul ((M : Rat) * s) nrm).add (V3.smul ((M : Rat) * t) w) := by
+      obtain ⟨a, b, c⟩ := o
+      obtain ⟨x, y, z⟩ := nrm
+      obtain ⟨u, v, r⟩ := w
+      simp only [planePos, V3.add, V3.smul, V3.sub, V3.mk.injEq]
+      refine ⟨?_, ?_, ?_⟩ <;> push_cast <;> ring
+    rw [hspan]
+    have ha : nrm.dot ((V3.smul ((M : Rat) * s) nrm).add (V3.smul ((M : Rat) * t) w)) = (M : Rat) * s := by
+      obtain ⟨x, y, z⟩ := nrm
+      obtain ⟨u, v, r⟩ := w
+      simp only [V3.dot] at hn hnw
+      simp only [V3.add, V3.smul, V3.dot]
+      linear_combination ((M : Rat) * s) * hn + ((M : Rat) * t) * hnw
+    have hq : ((V3.smul ((M : Rat) * s) nrm).add (V3.smul ((M : Rat) * t) w)).dot
+        ((V3.smul ((M : Rat) * s) nrm).add (V3.smul ((M : Rat) * t) w)) = (M : Rat) * (M : Rat) * (s * s + t * t) := by
+      obtain ⟨x, y, z⟩ := nrm
+      obtain ⟨u, v, r⟩ := w
+      simp only [V3.dot] at hn hnw hw
+      simp only [V3.add, V3.smul, V3.dot]
+      linear_combination ((M : Rat) * s) * ((M : Rat) * s) * hn + ((M : Rat) * t) * ((M : Rat) * t) * hw
+        + 2 * ((M : Rat) * s) * ((M : Rat) * t) * hnw
+    have hMM : 0 ≤ (M : Rat) * (M : Rat) := mul_self_nonneg _
+    simp only [isPerpendicular, ha, hq, Bool.and_eq_false_iff, decide_eq_false_iff_not, not_lt]
+    left; right
+    nlinarith
+  simp only [hperp, Bool.and_false, Bool.false_eq_true, if_false]
+
 end HdVerif.C11
